@@ -179,7 +179,11 @@ struct AllocStats {
   size_t largest = 0;
   std::map<void *, std::pair<int, size_t>> live;  // ptr -> (type, size)
   void *fail_site = nullptr;
-  void reset() { requests = 0; fail_at = fail_at2 = -1; failed = 0; largest = 0; live.clear(); fail_site = nullptr; }
+  bool enabled = false;        // table is kept only while a case runs
+  std::set<void *> freed;      // released since reset() and not handed out again
+  unsigned double_frees = 0;
+  int double_free_type = -1;
+  void reset() { requests = 0; fail_at = fail_at2 = -1; failed = 0; largest = 0; live.clear(); fail_site = nullptr; freed.clear(); double_frees = 0; double_free_type = -1; }
 };
 extern AllocStats A;
 
